@@ -393,12 +393,12 @@ def case_decls():
 
 
 # ---------------------------------------------------------------- helpers
-def _sub(name, args, locals_, body, disp=None, prefix=(), use=None):
+def _sub(name, args, locals_, body, disp=None, prefix=(), use=None, spec=()):
     '''args: [(decl, intent)]; disp: spelling of the name in the definition,
     use: spelling at the references'''
     return {"name": name, "args": args, "locals": locals_, "body": B(body),
             "disp": disp or name, "prefix": list(prefix), "use": use or disp or name,
-            "result": None}
+            "result": None, "spec": list(spec)}
 
 
 def _fun(name, args, result, locals_, body, disp=None, prefix=(), use=None, clause=None,
@@ -427,6 +427,25 @@ HELPERS = {h["name"]: h for h in [
     _sub("h_mat", [(D("w", "r", (1, 3), (1, 2)), "inout"), (D("q", "i"), "in")],
          [D("ii", "i"), D("jj", "i")],
          [do("jj", "1", "2", None, [do("ii", "1", "q", None, ["w(ii, jj) = w(ii, jj) + gv(jj)"])])]),
+    # locals that are static: SAVE attribute, initial value, SAVE statement (same
+    # spelling / different case / several names), bare SAVE.  FortranSem has no
+    # static storage: every helper is called once and defines the variable before
+    # reading it (or reads its initial value), so the value does not depend on it;
+    # that the variable *stays* static is decided by the clause WriterKeepsStatic
+    _sub("h_sattr", [(D("q", "i"), "inout")], [dict(D("cnt", "i"), save="attr")],
+         ["cnt = q", "cnt = cnt + 1", "q = cnt"]),
+    _sub("h_sinit", [(D("q", "i"), "inout")], [dict(D("cnt", "i"), initval="0", save="init")],
+         ["cnt = cnt + q", "q = cnt * 2"]),
+    _sub("h_sstmt", [(D("q", "i"), "inout")], [dict(D("cnt", "i"), save="stmt")],
+         ["cnt = q", "cnt = cnt + 2", "q = cnt"], spec=["save cnt"]),
+    _sub("h_scase", [(D("q", "i"), "inout")], [dict(D("calls", "i"), save="stmt", disp="Calls")],
+         ["calls = q", "calls = calls + 3", "q = calls"], spec=["save calls"]),
+    _sub("h_smulti", [(D("q", "i"), "inout")],
+         [dict(D("calls", "i"), save="stmt", disp="Calls"), dict(D("last", "i"), save="stmt"),
+          D("acc", "i")],
+         ["calls = q", "last = calls + 1", "acc = last * 2", "q = acc + calls"], spec=["save calls, LAST"]),
+    _sub("h_sbare", [(D("q", "i"), "inout")], [dict(D("cnt", "i"), save="stmt"), dict(D("oth", "i"), save="stmt")],
+         ["cnt = q", "oth = cnt + 4", "q = oth"], spec=["save"]),
     # mixed-case names and prefixes
     _sub("mixedsub", [(D("p", "r"), "inout")], [], ["p = p + 1.0"], disp="MixedSub", prefix=["pure"],
          use="mixedsub"),
@@ -501,9 +520,11 @@ def sub_record(h):
     formals = [d for d, _ in h["args"]] + ([h["result"]] if h["result"] else [])
     return {"formals": [{"name": d["name"], "ty": d["ty"], "lo": [lo for lo, _ in d["dims"]],
                          "rank": len(d["dims"])} for d in formals],
-            "locals": [{"name": d["name"], "ty": d["ty"],
-                        "dims": [[{"k": "lit", "t": "int", "v": lo}, {"k": "lit", "t": "int", "v": hi}]
-                                 for lo, hi in d["dims"]]} for d in h["locals"] + temps],
+            "locals": [dict({"name": d["name"], "ty": d["ty"],
+                             "dims": [[{"k": "lit", "t": "int", "v": lo}, {"k": "lit", "t": "int", "v": hi}]
+                                      for lo, hi in d["dims"]]},
+                            **({"init": E(d["initval"])} if d.get("initval") else {}))
+                       for d in h["locals"] + temps],
             "body": body}
 
 
@@ -558,8 +579,15 @@ def source(body):
                 decls.append((dict(res, name=h["clause"] or h["disp"]), None))
         rts.append(R.routine(h["disp"], [d["name"] for d, _ in h["args"]],
                              decls + [(d, None) for d in h["locals"]], h["body"],
-                             kind=kind, prefix=head, suffix=suffix))
+                             kind=kind, prefix=head, suffix=suffix, spec=h["spec"]))
     return R.module(MODULE, MODVARS, rts)
+
+
+def statics(body):
+    '''"routine:variable" (lower case) of every routine-local variable the program
+    text makes static (SAVE attribute, initial value, SAVE statement)'''
+    return sorted(f"{nm}:{d['name']}" for nm in called(body) for d in HELPERS[nm]["locals"]
+                  if d.get("save"))
 
 
 def interface(body):
@@ -1049,7 +1077,17 @@ def fam_misc():
     ]
 
 
-FAMILIES = [fam_functions, fam_misc, fam_select, fam_where, fam_array, fam_intrinsic, fam_loops, fam_if, fam_expr,
+def fam_static():
+    dom = {"n": [1, 4], "k": [5]}
+    out = [Prog(f"static|{nm[3:]}", ["k = n", call(nm, "k"), "k = k + 100"], dom=dom, fills=[1],
+                tags={"static"})
+           for nm in ("h_sattr", "h_sinit", "h_sstmt", "h_scase", "h_smulti", "h_sbare")]
+    out.append(Prog("static|all", ["k = n", call("h_scase", "k"), call("h_smulti", "k"), call("h_sattr", "k"),
+                                   call("h_sinit", "k")], dom=dom, fills=[1], tags={"static"}))
+    return out
+
+
+FAMILIES = [fam_static, fam_functions, fam_misc, fam_select, fam_where, fam_array, fam_intrinsic, fam_loops, fam_if, fam_expr,
             fam_calls, fam_combo]
 
 
